@@ -8,6 +8,9 @@
 From EG Require Import Base.Prelude Base.Casts Model.Geometry Gen.MockConsts Model.Mockdisplay Gen.SrcGeometry Gen.SrcMock.
 From Coq Require Import FMapPositive.
 Set Default Timeout 60.
+(* the generated definitions that cast to usize (`as usize`, `usize::try_from`) take the width of usize as Casts.UsizeW; the model
+   of this property works with 64-bit usize (exact integers in range): taken at that width *)
+#[local] Existing Instance Casts.usize64_w.
 
 Definition repr (l : list (option Z)) (c : cellmap) : Prop :=
   Z.of_nat (length l) = NCELLS /\ forall i, 0 <= i < NCELLS -> nth (Z.to_nat i) l None = cell c i.
@@ -104,7 +107,7 @@ Proof.
     apply repr_set; [exact (conj HL HR')|]. unfold NCELLS. change SIZE with 64. lia.
   - cbn [andb bind res_rel].
     assert (E : Casts.cast_i32_usize i = i + 2 ^ 64).
-    { unfold Casts.cast_i32_usize, Casts.wrap_usize, Casts.wrap_unsigned.
+    { unfold Casts.cast_i32_usize, Casts.wrap_usize, Casts.usize_max_w, Casts.usize64_w, Casts.max_usize. change (18446744073709551615 + 1) with (2 ^ 64).
       rewrite <- (Z.mod_add i 1 (2 ^ 64)) by lia. rewrite Z.mul_1_l. apply Z.mod_small. unfold i32_min in Hi. lia. }
     rewrite E. unfold i32_min in Hi.
     rewrite (proj2 (Z.leb_le 0 _)) by lia. rewrite (proj2 (Z.ltb_ge _ _)) by lia. exact I.
